@@ -205,6 +205,17 @@ pub fn oracle(before: &Snap, after: &Snap, model: &Model, stable: bool, what: &s
     out
 }
 
+/// configuration class of a compaction round, part of every C13 signature
+fn config_tag(stable: bool, defer: bool, fri_present: bool) -> &'static str {
+    match (stable, defer, fri_present) {
+        (true, true, _) | (true, _, true) => ":stable-row-ids+deferred-remap",
+        (true, false, false) => ":stable-row-ids",
+        (false, true, _) => ":deferred-remap",
+        (false, false, true) => ":remap-after-deferred-remap",
+        (false, false, false) => "",
+    }
+}
+
 struct Ctx<'a> {
     report: &'a Report,
     ops: &'a Histo,
@@ -259,10 +270,12 @@ async fn run_case(cx: &Ctx<'_>, seed: u64, idx: u64, thorough: bool, selftest: b
     let mut rng = Rng::for_case(seed, idx);
     let mut cfg = HistCfg::random(&mut rng, None);
     cfg.initial_rows_per_file = *rng.pick(&[2usize, 3, 4, 5, 7]);
+    cfg.allow_defer_remap = true;
     let mut h = match Hist::create(&mut rng, cfg.clone(), &format!("c13-{seed}-{idx}"), (idx % 4000) as usize + 1).await {
         Ok(h) => h,
         Err(e) => {
-            cx.report.harness_error(&format!("case {idx}: create failed: {}", e.brief()));
+            cx.report.rejected();
+            cx.diag.add(&format!("create:{}", e.brief().chars().take(160).collect::<String>()), 1);
             return (0, 0);
         }
     };
@@ -276,6 +289,8 @@ async fn run_case(cx: &Ctx<'_>, seed: u64, idx: u64, thorough: bool, selftest: b
     let mut rows_compared = 0u64;
     let mut queries_compared = 0u64;
     let mut index_used = 0u64;
+    // an earlier compaction of this table deferred the index remap (a fragment reuse index exists)
+    let mut fri_present = false;
     for round in 0..rounds {
         // ---- build a layout of many small, partially deleted fragments
         let n_pre = rng.urange(3, 8);
@@ -286,7 +301,7 @@ async fn run_case(cx: &Ctx<'_>, seed: u64, idx: u64, thorough: bool, selftest: b
                 let out = h.apply(&mut rng, &op).await;
                 cx.ops.add(op.kind(), 1);
                 if let Outcome::Failed(f) | Outcome::Rejected(f) = out {
-                    cx.diag.add(&format!("create_index:{}", f.brief().chars().take(100).collect::<String>()), 1);
+                    cx.diag.add(&format!("create_index:{}", f.key()), 1);
                 }
             }
             let op = h.gen_op(&mut rng, PRE);
@@ -298,7 +313,7 @@ async fn run_case(cx: &Ctx<'_>, seed: u64, idx: u64, thorough: bool, selftest: b
                     cx.diag.add(&format!("rejected:{}:{}", op.kind(), f.msg().chars().take(80).collect::<String>()), 1);
                 }
                 Outcome::Failed(f) => {
-                    cx.diag.add(&format!("failed:{}:{}", op.kind(), f.brief().chars().take(120).collect::<String>()), 1)
+                    cx.diag.add(&format!("failed:{}:{}", op.kind(), f.key()), 1)
                 }
                 _ => {}
             }
@@ -328,6 +343,15 @@ async fn run_case(cx: &Ctx<'_>, seed: u64, idx: u64, thorough: bool, selftest: b
         }
         let frags_before: Vec<u64> = h.ds.get_fragments().iter().map(|f| f.id() as u64).collect();
         let deletions_before = h.ds.count_deleted_rows().await.unwrap_or(0);
+        if std::env::var("C13_DEBUG").is_ok() {
+            use lance_index::DatasetIndexExt;
+            if let Ok(ix) = h.ds.load_indices().await {
+                for i in ix.iter() {
+                    println!("DEBUG index {} v{} bitmap {:?}", i.name, i.dataset_version, i.fragment_bitmap.as_ref().map(|b| b.iter().collect::<Vec<_>>()));
+                }
+            }
+            println!("DEBUG fragments {:?}", h.ds.get_fragments().iter().map(|f| (f.id(), f.metadata().physical_rows, f.metadata().deletion_file.as_ref().map(|d| d.num_deleted_rows))).collect::<Vec<_>>());
+        }
         // ---- compaction
         let spec = h.gen_compact(&mut rng, true);
         let op = Op::Compact(spec.clone());
@@ -348,7 +372,7 @@ async fn run_case(cx: &Ctx<'_>, seed: u64, idx: u64, thorough: bool, selftest: b
             Outcome::Rejected(f) | Outcome::Failed(f) => {
                 // a compaction that fails must not change anything either: fall through to the
                 // comparison, and count the failure
-                cx.diag.add(&format!("{what}:{}", f.brief().chars().take(140).collect::<String>()), 1);
+                cx.diag.add(&format!("{what}:{}", f.key()), 1);
             }
             _ => {}
         }
@@ -372,8 +396,15 @@ async fn run_case(cx: &Ctx<'_>, seed: u64, idx: u64, thorough: bool, selftest: b
         let mut after = match snapshot(&ds_after, stable, h.indexed.is_some()).await {
             Ok(s) => s,
             Err(e) => {
+                if std::env::var("C13_DEBUG").is_ok() {
+                    println!("DEBUG error {}", e.msg());
+                }
                 cx.report.violation(
-                    &format!("read-failed-after-{what}"),
+                    &format!(
+                        "read-failed-after-compaction[{}]{}",
+                        crate::c11::err_site(&e.msg()),
+                        config_tag(stable, spec.defer_index_remap, fri_present)
+                    ),
                     "scan / count / indexed query fails after compaction although it worked before",
                     json!({"seed": seed, "case": idx, "error": e.brief(), "compaction": spec.brief(), "history": h.log_json()}),
                 );
@@ -384,24 +415,24 @@ async fn run_case(cx: &Ctx<'_>, seed: u64, idx: u64, thorough: bool, selftest: b
             let mut crng = Rng::for_case(seed ^ 0xD00D, idx * 8 + round as u64);
             if corrupt(&mut after, stable, &mut crng) {
                 applied_c += 1;
-                if !oracle(&before, &after, &h.model, stable, what).is_empty() {
+                if !oracle(&before, &after, &h.model, stable, "compaction").is_empty() {
                     detected_c += 1;
                 }
             }
             continue;
         }
-        let findings = oracle(&before, &after, &h.model, stable, what);
+        let findings = oracle(&before, &after, &h.model, stable, "compaction");
         rows_compared += after.obs.rows.len() as u64;
         queries_compared += after.queries.len() as u64;
         index_used += after.queries.iter().filter(|q| q.2).count() as u64;
         if !findings.is_empty() {
             for f in findings {
-                let sig = format!(
-                    "{}{}{}",
-                    f.sig,
-                    if stable { "-stable-row-ids" } else { "" },
-                    if spec.defer_index_remap && f.sig.starts_with("index-query") { "-defer-remap" } else { "" }
-                );
+                let base = if f.sig.starts_with("index-query-answer-changed-by-compaction") {
+                    "index-query-answer-changed-by-compaction".to_string()
+                } else {
+                    f.sig.clone()
+                };
+                let sig = format!("{base}{}", config_tag(stable, spec.defer_index_remap, fri_present));
                 cx.report.violation(
                     &sig,
                     &f.what,
@@ -410,6 +441,9 @@ async fn run_case(cx: &Ctx<'_>, seed: u64, idx: u64, thorough: bool, selftest: b
                 );
             }
             return (0, 0);
+        }
+        if spec.defer_index_remap && frags_before != frags_after && h.indexed.is_some() {
+            fri_present = true;
         }
         let order_kept = before.obs.rows.iter().map(|r| r.id).collect::<Vec<_>>()
             == after.obs.rows.iter().map(|r| r.id).collect::<Vec<_>>();
